@@ -51,6 +51,7 @@ class ScriptedGenerator(np.random.Generator):
         self.points = []
         self.pos = 0
         self.strict_len = strict_len
+        self.diverged = False
 
     # ---- bookkeeping
     def _take(self, n, kind):
@@ -182,7 +183,7 @@ _FORBIDDEN = {
 }
 
 
-def explore(run, bound=None, max_exec=None, menu=(0.5,)):
+def explore(run, bound=None, max_exec=None, menu=(0.5,), divergence="raise"):
     """Stateless exploration of the choice tree of `run`, in order of the number of DEVIATIONS from the default answer
     (alternative 0): first the execution without deviation, then all with one, then all with two ... (iterative
     deviation bounding; within one deviation count depth first).  Every execution runs to completion.
@@ -207,9 +208,17 @@ def explore(run, bound=None, max_exec=None, menu=(0.5,)):
         rng = ScriptedGenerator(prefix, menu=menu)
         obs = run(rng)
         if rng.pos < len(prefix):
-            raise HarnessError(
-                f"replay divergence: execution consumed {rng.pos} points, prefix has {len(prefix)}"
-            )
+            # the same answers did not lead to the same questions.  With fresh objects per execution that is nondeterminism
+            # the harness does not own (hard error).  Where the caller deliberately shares an object between executions
+            # (divergence="yield") it is an observation: the object's behaviour depends on its earlier use.
+            if divergence != "yield":
+                raise HarnessError(
+                    f"replay divergence: execution consumed {rng.pos} points, prefix has {len(prefix)}"
+                )
+            rng.diverged = True
+            n += 1
+            yield rng, obs
+            continue
         n += 1
         yield rng, obs
         ch = rng.choices
